@@ -47,7 +47,11 @@ class MarkovCheck(object):
             r = random.Random(cs)
             desc = gen.random_graph(r, 1, 12)
             desc['labels'] = r.choice(gen.LABEL_SCHEMES)
+            if r.random() < 0.5:
+                desc = gen.shuffle_desc(r, desc)        # node / edge insertion order unrelated to the labels
             c = simcase.make_markov_case(r, desc, with_R0=(self.MODEL == 'SIR'))
+            if r.random() < 0.2:
+                c['tau'], c['gamma'] = int(round(c['tau'])), int(round(c['gamma']))     # integer rates (incl. 0)
             if self.MODEL == 'SIR':
                 c['tmax'] = r.choice(['inf', 'inf', c['tmin'] + 1.0, c['tmin'] + 0.2, c['tmin'] + 4])
             else:
